@@ -1,6 +1,7 @@
 package main
 
 import (
+	"encoding/json"
 	"fmt"
 	"os"
 	"path/filepath"
@@ -9,9 +10,147 @@ import (
 	"gosym/interp"
 )
 
-// confirmGated: native confirmation of schedule-dependent counterexamples (gated replay).
+// confirmGated replays a schedule-dependent counterexample natively: the engine's order of
+// completed synchronisation events is enforced by gates (zzgate.At/After) that an AST
+// rewrite puts around every synchronisation operation in overlay-only copies of the source
+// files the trace mentions.  Races are confirmed by the Go race detector on the gated run,
+// panics by the native panic, assertion failures by the harness itself.
 func (r *propRun) confirmGated(j Job, v interp.Violation) (bool, *nativeResult, string) {
-	return false, nil, "gated replay not available"
+	if len(v.W.Trace) == 0 {
+		return false, nil, "no schedule trace"
+	}
+	if v.Kind == "cover" {
+		// translator validation of the runtime model: the native run must follow the engine's
+		// schedule to the end of the trace and reproduce the observables
+		res, out, err := r.gatedRun(j, v, true)
+		if err != nil {
+			return false, nil, out
+		}
+		nr, ok := res["v"]
+		if !ok {
+			return false, nil, out
+		}
+		good := !strings.Contains(out, "gate: DIVERGED") && nr.GatePos == nr.GateLen && len(nr.Failed) == 0 && nr.Panic == "" && len(nr.Mismatch) == 0 && !nr.Assume
+		return good, &nr, out
+	}
+	if v.Kind == "race" {
+		// The gates synchronise through a mutex, which would hide the race from the detector:
+		// races are confirmed by free-running native runs of the same harness and witness under
+		// the Go race detector (a pair of accesses with no happens-before path is reported
+		// whatever the timing, as long as both accesses execute).
+		c := caseOf("v", j, v)
+		c.Obs = nil
+		for try := 0; try < 3; try++ {
+			_, out, _ := r.nativeReplay(j, []nativeCase{c}, nil, nil, true)
+			if strings.Contains(out, "WARNING: DATA RACE") {
+				nr := nativeResult{ID: "v", Panic: "DATA RACE reported by the Go race detector: " + raceSummary(out)}
+				return true, &nr, out
+			}
+		}
+		return false, nil, "race not reported by the native race detector in 3 runs"
+	}
+	res, out, _ := r.gatedRun(j, v, false)
+	diverged := strings.Contains(out, "gate: DIVERGED")
+	switch v.Kind {
+	case "panic":
+		if nr, ok := res["v"]; ok && nr.Panic != "" {
+			return true, &nr, out
+		}
+		if strings.Contains(out, "panic:") && !strings.Contains(out, "test timed out") {
+			nr := nativeResult{ID: "v", Panic: firstPanicLine(out)}
+			return true, &nr, out
+		}
+		return false, nil, out
+	case "deadlock":
+		if strings.Contains(out, "test timed out") || strings.Contains(out, "all goroutines are asleep") {
+			nr := nativeResult{ID: "v", Panic: "native run did not terminate under the replayed schedule"}
+			return !diverged, &nr, out
+		}
+		return false, nil, out
+	}
+	nr, ok := res["v"]
+	if !ok {
+		return false, nil, out
+	}
+	return confirms(v, nr), &nr, out
+}
+
+// gatedRun instruments the files the trace mentions and runs the case under the gates.
+func (r *propRun) gatedRun(j Job, v interp.Violation, withObs bool) (map[string]nativeResult, string, error) {
+	dir, err := os.MkdirTemp(r.work, "gated")
+	if err != nil {
+		return nil, err.Error(), err
+	}
+	files := map[string]bool{}
+	for _, ev := range v.W.Trace {
+		f := strings.Fields(ev)
+		if len(f) < 3 {
+			continue
+		}
+		if i := strings.Index(f[1], ":"); i > 0 {
+			files[f[1][:i]] = true
+		}
+	}
+	extra := map[string]string{}
+	for rel := range files {
+		virt := filepath.Join(repoDir, rel)
+		real := virt
+		if o, ok := r.ld.overlay[virt]; ok {
+			real = o
+		}
+		src, err := os.ReadFile(real)
+		if err != nil {
+			return nil, "gate instrumenter: " + err.Error(), err
+		}
+		out, err := instrumentFile(src, rel)
+		if err != nil {
+			return nil, "gate instrumenter: " + err.Error(), err
+		}
+		dst := filepath.Join(dir, strings.ReplaceAll(rel, "/", "__"))
+		if err := os.WriteFile(dst, out, 0644); err != nil {
+			return nil, err.Error(), err
+		}
+		extra[virt] = dst
+	}
+	tb, _ := json.Marshal(v.W.Trace)
+	tf := filepath.Join(dir, "trace.json")
+	os.WriteFile(tf, tb, 0644)
+	c := caseOf("v", j, v)
+	if !withObs {
+		c.Obs = nil
+	}
+	return r.nativeReplay(j, []nativeCase{c}, []string{"ZZGATE_TRACE=" + tf}, extra, false)
+}
+
+// raceSummary extracts the repository frames of the first race report.
+func raceSummary(out string) string {
+	var fr []string
+	in := false
+	for _, l := range strings.Split(out, "\n") {
+		if strings.Contains(l, "WARNING: DATA RACE") {
+			in = true
+			continue
+		}
+		if in && strings.HasPrefix(strings.TrimSpace(l), "/repo/") {
+			fr = append(fr, strings.TrimSpace(l))
+			if len(fr) >= 4 {
+				break
+			}
+		}
+		if in && strings.HasPrefix(l, "==================") && len(fr) > 0 {
+			break
+		}
+	}
+	return strings.Join(fr, " | ")
+}
+
+func firstPanicLine(out string) string {
+	for _, l := range strings.Split(out, "\n") {
+		if strings.HasPrefix(l, "panic:") {
+			return l
+		}
+	}
+	return "panic"
 }
 
 // materialize writes a file-system image of the engine (paths under /db) into a fresh
